@@ -154,7 +154,7 @@ fn run_entry(entry: &str, input: &[u8]) -> Option<bool> {
         "rrclose" | "arrclose" => {
             // a peer that sends `input` (after greeting and EHLO reply) and closes: read_response must come back
             use std::io::{Read, Write};
-            let listener = std::net::TcpListener::bind("127.0.0.1:0").ok()?;
+            let listener = std::net::TcpListener::bind((crate::util::lo(), 0)).ok()?;
             let port = listener.local_addr().ok()?.port();
             let data = input.to_vec();
             std::thread::spawn(move || {
@@ -167,12 +167,12 @@ fn run_entry(entry: &str, input: &[u8]) -> Option<bool> {
             });
             let hello = lettre::transport::smtp::extension::ClientId::Domain("h".into());
             if entry == "rrclose" {
-                let mut c = lettre::transport::smtp::client::SmtpConnection::connect(("127.0.0.1", port), Some(Duration::from_secs(2)), &hello, None, None).ok()?;
+                let mut c = lettre::transport::smtp::client::SmtpConnection::connect((crate::util::lo(), port), Some(Duration::from_secs(2)), &hello, None, None).ok()?;
                 c.read_response().is_ok()
             } else {
                 let rt = tokio::runtime::Builder::new_current_thread().enable_all().build().ok()?;
                 rt.block_on(async {
-                    let mut c = lettre::transport::smtp::client::AsyncSmtpConnection::connect_tokio1(("127.0.0.1", port), Some(Duration::from_secs(2)), &hello, None, None).await.ok()?;
+                    let mut c = lettre::transport::smtp::client::AsyncSmtpConnection::connect_tokio1((crate::util::lo(), port), Some(Duration::from_secs(2)), &hello, None, None).await.ok()?;
                     Some(c.read_response().await.is_ok())
                 })?
             }
